@@ -27,6 +27,7 @@ def correspondence(ctx):
     meanx.run_correspondence(ctx, ctx.n(120, 3000), "c04", only_mean)
 
 
+@H.under_contrary_config
 def _run_case(case):
     import pyarrow as pa
     import tea_tasting as tt
@@ -43,6 +44,7 @@ def _run_case(case):
 
 
 def oracle(ctx, deep=False):
+    reuse_oracle(ctx)
     n = ctx.n(150, 4000) * (3 if deep else 1)
     for i in range(n):
         cfg = meanx.cfg_json(meanx.rand_cfg(ctx.rng, covariates=0, ratio_metric=False))
@@ -59,7 +61,22 @@ def oracle(ctx, deep=False):
                 break
 
 
+def reuse_oracle(ctx):
+    for parameter in ['analyze']:
+        for _ in range(ctx.n(3, 40)):
+            seed = ctx.rng.randint(0, 10**6)
+            fails = meanx.reuse_history(seed, parameter)
+            ctx.evaluations += 1
+            ctx.count("oracle:reused-object-history")
+            for f in fails:
+                ctx.violations.append({"what": "result depends on earlier calls on the same metric object", "detail": f,
+                                       "input": {"reuse_history": True, "seed": seed, "parameter": parameter}})
+
+
 def replay(ctx, rp):
+    if rp["input"].get("reuse_history"):
+        fails = meanx.reuse_history(rp["input"]["seed"], rp["input"]["parameter"])
+        return {"fails": bool(fails), "failures": fails}
     bad = _run_case(rp["input"])
     return {"fails": bool(bad), "failures": bad}
 
